@@ -252,7 +252,7 @@ SETTERS = ["href", "protocol", "username", "password", "host", "hostname", "port
 
 # Values that are meaningful to a parser state other than the one a setter starts in: a quirk that leaks from one
 # state into a setter (drive letters, authority markers, dot segments, scheme text) shows only on these.
-CROSS_VALUES = ["C:", "c|", "C:/", "d|?x", "C|/x", "/C:/", "C:\\", "Z|#f", "//h", "\\\\h", "@", "u@h", "u:p@h", ":80", "h:80", "?q", "#f", "/p", "..", "/..", "%2e%2e", ".",
+CROSS_VALUES = ["/C:xyz/../q", "c:x/..", "/C:x/..", "/c:xy/../..", "C:", "c|", "C:/", "d|?x", "C|/x", "/C:/", "C:\\", "Z|#f", "//h", "\\\\h", "@", "u@h", "u:p@h", ":80", "h:80", "?q", "#f", "/p", "..", "/..", "%2e%2e", ".",
                 "[::1]", "1.2.3.4", "0x7f.1", "file:", "http://x", "a:b", " ", "\t", "localhost", "LOCALHOST", "xn--", "%41", "\u00fc", "h/../..", "h?q#f", "80x", "/.//x"]
 
 def gen_setter_call(r, allow_protocol=True):
@@ -405,6 +405,16 @@ def stream_histories(ctx, r):
             if r.random() < 0.4: lines.append("get 0")
         lines += ["usp_sort 1", "get 0", "get 2"]
         cases.append(Case(lines, "detached-copy"))
+    # assigning an EQUAL list to the params object of a URL whose query text is not the canonical serialization of that
+    # list: the assignment must still re-serialize (a=1&&b -> a=1&b=, ? -> null query)
+    for q in ["a=1&&b", "x=a%20b&y", "c=%41", "", "&&", "a=b&", "+=%2B", "a=1&a=1"]:
+        for op in ["assign", "safe_assign", "copyfrom"]:
+            for first in (True, False):
+                lines = ["parse 0 %s -" % tok("http://host/p?" + q + ("#f" if first else ""))]
+                lines += ["sp 0", "sp_snapshot 0 1", "sp_%s 0 1" % op, "get 0"]
+                cases.append(Case(lines, "assign-equal-list"))
+                lines = ["parse 0 %s -" % tok("http://host/p?" + q), "copy 2 0", "sp 0", "sp 2", "sp_snapshot 2 1", "sp_%s 0 1" % op, "get 0", "get 2"]
+                cases.append(Case(lines, "assign-equal-list"))
     for rep in range(scale(ctx, 2500, 30000)):
         lines = []
         for _ in range(r.randint(2, scale(ctx, 15, 60))):
@@ -1144,7 +1154,7 @@ def ser_path_ops(r, file_scheme):
     ops = []
     for _ in range(r.randint(0, 6)):
         x = r.random()
-        seg = r.choice(["C:", "c:", "D|", "", "", "a", "b", "x y", "..a", "a" * 20]) if file_scheme or x < 0.3 else ser_text(r).replace("/", "")
+        seg = r.choice(["C:", "c:", "D|", "C:xyz", "c:x", "C:|", "", "", "a", "b", "x y", "..a", "a" * 20]) if file_scheme or x < 0.3 else ser_text(r).replace("/", "")
         if x < 0.12: ops.append("sh")
         elif x < 0.2: ops.append("pe")
         elif x < 0.26: ops += ["sh", "pe"]
